@@ -1559,3 +1559,18 @@ package rtcp
 //@   ensures[C09] accepted: err == nil && err2 == nil ==> err3 == nil
 //@   ensures[C09] fields: err == nil && err2 == nil ==> q.SubType == p.SubType && q.SSRC == p.SSRC && len(q.Data) == len(p.Data)
 //@   ensures[C09] data: forall k :: err == nil && err2 == nil && 0 <= k && k < len(p.Data) ==> q.Data[k] == p.Data[k]
+
+//@ func (n *NackPair) Range(f func(seqno uint16) bool)
+//@   safety[C12]
+//@   ensures[C12] first: cbcalls() >= 1 && cbArg[uint16](0) == n.PacketID
+//@   ensures[C12] stops: forall k :: 0 <= k && k < cbcalls()-1 ==> cbRet(k)
+//@   ensures[C12] bits: forall k :: 1 <= k && k < cbcalls() ==> specBitIndex(n.PacketID, cbArg[uint16](k)) < 16 && uint16(n.LostPackets)>>specBitIndex(n.PacketID, cbArg[uint16](k))&1 == 1
+//@   ensures[C12] ascending: forall k :: 1 <= k && k+1 < cbcalls() ==> specBitIndex(n.PacketID, cbArg[uint16](k)) < specBitIndex(n.PacketID, cbArg[uint16](k+1))
+//@   ensures[C12] all: cbRet(cbcalls()-1) ==> cbcalls() == 1 + int(specPopcount16(uint16(n.LostPackets)))
+//@   loop 1
+//@     invariant i <= 16 && uint16(b) == uint16(n.LostPackets) &^ (uint16(1)<<i - 1) && cbcalls() >= 1 && cbArg[uint16](0) == n.PacketID && more
+//@     invariant[C12] forall k :: 0 <= k && k < cbcalls() ==> cbRet(k)
+//@     invariant[C12] forall k :: 1 <= k && k < cbcalls() ==> specBitIndex(n.PacketID, cbArg[uint16](k)) < i && uint16(n.LostPackets)>>specBitIndex(n.PacketID, cbArg[uint16](k))&1 == 1
+//@     invariant[C12] forall k :: 1 <= k && k+1 < cbcalls() ==> specBitIndex(n.PacketID, cbArg[uint16](k)) < specBitIndex(n.PacketID, cbArg[uint16](k+1))
+//@     invariant[C12] cbcalls() == 1 + int(specPopcount16(uint16(n.LostPackets) & (uint16(1)<<i - 1)))
+//@     decreases 16 - int(i)
